@@ -6,7 +6,7 @@ use serde_json::json;
 use std::time::Duration;
 
 pub fn op_menu() -> Vec<&'static str> {
-    vec!["set k v1", "set k  two words ", "set-safe k 1 s1", "remove k", "increment c", "create-db d2 tok2", "create-user bob bt", "set-permissions bob rw k*", "snapshot false t"]
+    vec!["set k v1", "set k  two words ", "set-safe k 1 s1", "remove k", "increment c", "create-db d2 tok2", "create-user bob bt", "set-permissions bob rw k*|r c*", "snapshot false t"]
 }
 
 /// does the command write this key?
